@@ -6,7 +6,7 @@
 // statement they belong to, so line numbers in stack traces and race reports
 // still refer to the real files.
 //
-//	lock gate + ownership notes around every X.Lock() / X.Unlock() / defer X.Unlock()
+//	lock gate + ownership notes around m.mu.Lock() / m.mu.Unlock() / defer m.mu.Unlock()
 //	verifYield before and after every storeState(...) statement
 //	verifYield at entry of state.clone, appendHandler, removeHandler, addRule, addConnHandler, processFile
 //	verifYield after every assignment whose right-hand side calls loadState()
@@ -108,7 +108,7 @@ func main() {
 					if !ok {
 						return true
 					}
-					if recv, name := selCall(call); recv != nil && len(call.Args) == 0 {
+					if recv, name := selCall(call); recv != nil && len(call.Args) == 0 && gatedMutex(exprText(recv)) {
 						switch name {
 						case "Lock":
 							x := exprText(recv)
@@ -124,7 +124,7 @@ func main() {
 						add(st.End(), fmt.Sprintf("; verifYield(%q)", site(fname, "after-store")))
 					}
 				case *ast.DeferStmt:
-					if recv, name := selCall(st.Call); recv != nil && name == "Unlock" && len(st.Call.Args) == 0 {
+					if recv, name := selCall(st.Call); recv != nil && name == "Unlock" && len(st.Call.Args) == 0 && gatedMutex(exprText(recv)) {
 						add(st.Pos(), fmt.Sprintf("defer verifUnlocked(&%s); ", exprText(recv)))
 					}
 				case *ast.AssignStmt:
@@ -182,6 +182,11 @@ func main() {
 	sort.Strings(names)
 	fmt.Printf("instrument: %d insertions in %d files; sites: %s\n", total, len(overlay), strings.Join(names, " "))
 }
+
+// gatedMutex: only the registration mutex of the Mux is held across yield
+// points; per-stream mutexes guard straight-line sections in which no task can
+// park, so gating them would only add steps.
+func gatedMutex(expr string) bool { return expr == "m.mu" }
 
 func selCall(c *ast.CallExpr) (ast.Expr, string) {
 	sel, ok := c.Fun.(*ast.SelectorExpr)
